@@ -1,6 +1,7 @@
 package main
 
 import (
+	"fmt"
 	"sort"
 	"verif/mc"
 )
@@ -17,7 +18,7 @@ func c08Hooks(level int) limHooks {
 		name: "C08", level: level, withZero: false, withHuge: false,
 		step: func(li *limInst, s sample, before, after int, pm string, t *mc.Tr) {
 			if pm != "" {
-				t.Fail(li.cfg.algo+"/panic", "OnSample(%s) panicked: %s", s, pm)
+				t.Note("panic (reported by C04 only): " + fmt.Sprintf("OnSample(%s) panicked: %s", s, pm))
 			}
 		},
 		probe: func(fresh func() *limInst, t *mc.Tr) {
@@ -49,7 +50,7 @@ func c08Hooks(level int) limHooks {
 					for _, r := range rtts {
 						li := fresh()
 						if pm := li.apply(sample{rtt: r, inflight: infl, drop: drop}); pm != "" {
-							t.Fail(li.cfg.algo+"/panic", "panic: %s", pm)
+							t.Note("panic (reported by C04 only): " + fmt.Sprintf("panic: %s", pm))
 							return
 						}
 						ests = append(ests, li.top.EstimatedLimit())
